@@ -515,6 +515,59 @@ def _compare_batch(ctx, st, op, desc, arr, call, kw, k, T, dtype, ans, tags, msc
     ctx.compare(op, desc, impl_s, model_s, nontrivial=nontriv, tags=tuple(tags))
 
 
+def scale_batch(seed, j):
+    """A batch LARGER than any internal block (2^16 waveforms): 66 000 - 70 000 rows drawn with repetition from a pool of 160
+    short waveforms of every planted kind (weakly positive / trough-swap spikes included).  Returns (pool, idx, kw, k)."""
+    rng = np.random.default_rng([seed, 14, 77, j])
+    T, C, k = int(rng.choice([16, 24, 32])), int(rng.choice([1, 2, 3])), 5
+    plants = ['spike', 'ratio', 'stays-high', 'no-half-pre', 'no-half-post', 'half-exact', 'half-odd']
+    pool = []
+    while len(pool) < 160:
+        x, _ = _spike(rng, T, C, k, plants[len(pool) % len(plants)])
+        if not _first_sample_peak(x):
+            pool.append(x)
+    pool = np.stack(pool).astype(np.float32 if j % 2 == 0 else np.float64)
+    N = int(rng.choice([65536 + 64, 66000, 70001]))
+    idx = rng.integers(0, len(pool), size=N)
+    idx[-64:] = np.arange(64) * 2 % len(pool)            # the tail (past row 65536) holds every kind
+    return pool, idx, {}, k
+
+
+def scale_oracle(seed, j):
+    """features of a very large batch = features of each of its waveforms in a small batch (None when it holds)"""
+    pool, idx, kw, k = scale_batch(seed, j)
+    dp, ep = _features(pool, **kw)
+    if dp is None:
+        return None                      # the pool itself is rejected: nothing to compare (does not happen on the unchanged tree)
+    big = pool[idx]
+    db, eb = _features(big, **kw)
+    if db is None:
+        return f'a batch of {len(idx)} waveforms raises ({eb}) although the same waveforms in a batch of {len(pool)} are processed'
+    if len(db) != len(idx):
+        return f'{len(db)} rows for {len(idx)} waveforms'
+    cols = [c for c in IDX_COLS if c in db.columns and c in dp.columns]
+    a = db[cols].to_numpy(dtype=float)
+    b = dp[cols].to_numpy(dtype=float)[idx]
+    bad = ~((a == b) | (np.isnan(a) & np.isnan(b)))
+    if bad.any():
+        r, cidx = np.argwhere(bad)[0]
+        return (f'waveform {int(r)} of a batch of {len(idx)}: {cols[int(cidx)]} is {a[r, cidx]!r} in the large batch and {b[r, cidx]!r} '
+                f'for the same waveform in a batch of {len(pool)}')
+    return None
+
+
+def scale_cases(ctx):
+    for j in range(ctx.n(2, 8)):
+        try:
+            r = scale_oracle(ctx.seed, j)
+        except Exception as e:  # noqa
+            r = f'oracle raised {type(e).__name__}: {e}'
+        ctx.compare('scale', {'op': 'scale', 'j': j, 'seed': ctx.seed}, 'ok' if r is None else 'C14 fails at scale: ' + str(r)[:300], 'ok',
+                    tags=('scale', 'scale-N>65536'))
+        if r is not None:
+            ctx.scale_failures = getattr(ctx, 'scale_failures', []) + [(j, r)]
+
+
 def correspondence(ctx):
     st = _Stats()
     # (a) structured random batches --------------------------------------------------------------
@@ -606,6 +659,9 @@ def correspondence(ctx):
 # ---------------------------------------------------------------------------------------------
 # oracle: the property, stated directly on the real code
 # ---------------------------------------------------------------------------------------------
+    scale_cases(ctx)
+
+
 def _row_laws(x, r, k, T):
     """x: cleaned (T, C) waveform; r: the data-frame row.  Returns a description of the first broken law or None.
     Ties (several samples reaching the same largest |deflection|, several equal minima) are accepted either way."""
@@ -865,6 +921,11 @@ def search(ctx, reasons):
         if __import__('time').time() - t_start > 600:
             break
     if not best:
+        for j, r in getattr(ctx, 'scale_failures', []):
+            return {'input': {'generator': 'harness/props/c14.py scale_batch(seed, j)', 'seed': ctx.seed, 'j': j,
+                              'what': 'a batch of 66 000 - 70 000 waveforms drawn with repetition from a pool of 160 short waveforms'},
+                    'observed': r, 'expected': 'C14: features do not depend on the rest of the batch; extraction succeeds',
+                    'how': 'python: harness/props/c14.py scale_oracle(seed, j)'}
         return None
     _, arr, g, msg = best
     form = g['form']
@@ -894,6 +955,10 @@ def search(ctx, reasons):
 
 def replay(ctx, rep):
     i = rep['input']
+    if str(i.get('generator', '')).endswith('scale_batch(seed, j)'):
+        r = scale_oracle(int(i['seed']), int(i['j']))
+        print('oracle:', r)
+        return r is not None
     arr = np.array([[[np.nan if v is None else v for v in row] for row in w] for w in i['arr_in (wav, time, trace)']],
                    dtype=np.dtype(i['dtype']))
     form = i.get('form')
